@@ -131,6 +131,11 @@ type mapAllocRec struct {
 type Enc struct {
 	mapAllocs []mapAllocRec
 	lastTyp      map[string]types.Type // static type of lastresult(callee)
+	lastArgTyp   map[string]types.Type // static type of lastarg(callee, i)
+	pendingInv   map[ssa.Value][]string // fields stored in the current run of stores to one object
+	propSites    map[string]*propSite  // call sites under a propagates clause
+	propOrder    []string
+	propHit      map[int]bool
 	nameFallback bool
 	atHit    map[int]bool // at-clauses of the contract that matched a site
 	families []*sliceFamily
@@ -216,6 +221,10 @@ func NewEnc(p *Prog, fn *ssa.Function) *Enc {
 
 func (e *Enc) reset() {
 	e.atHit = map[int]bool{}
+	e.propHit = map[int]bool{}
+	e.propSites = nil
+	e.pendingInv = nil
+	e.propOrder = nil
 	e.sb.Reset()
 	e.decl = map[string]bool{}
 	e.n = 0
@@ -467,6 +476,10 @@ func (e *Enc) heapGet(st *State, key string) Term {
 		e.heap0[key] = c
 		return c
 	}
+	if strings.HasPrefix(key, "errp|") {
+		e.heap0[key] = False // no call has failed at entry
+		return False
+	}
 	if strings.HasPrefix(key, "ent|") {
 		e.heap0[key] = False // no loop head has been reached at entry
 		return False
@@ -669,7 +682,7 @@ func (e *Enc) obligeNamed(name, kind, detail string, pos token.Pos, goal Term, p
 	ob := &Obligation{Name: name, Kind: kind, Detail: detail, Func: e.name, Pos: e.p.Pos(pos), Props: props, Src: src, enc: e}
 	if e.skipObligations {
 		switch kind {
-		case "frame", "effect", "lock", "guard", "post", "typeinv", "typeinv-new", "cand", "monotone", "writers", "at", "sink", "callers", "flows", "opaque", "contract-applies":
+		case "frame", "effect", "lock", "guard", "post", "typeinv", "typeinv-new", "cand", "monotone", "writers", "at", "sink", "callers", "flows", "opaque", "contract-applies", "propagates":
 		default:
 			e.assume(goal)
 		}
@@ -690,7 +703,7 @@ func (e *Enc) obligeNamed(name, kind, detail string, pos token.Pos, goal Term, p
 	// preconditions, invariants); pure proof goals (frames, effects, locks, postconditions) are not assumed,
 	// so that one failing goal does not make the goals after it vacuous.
 	switch kind {
-	case "frame", "effect", "lock", "guard", "post", "typeinv", "typeinv-new", "cand", "monotone", "writers", "at", "sink", "callers", "flows", "opaque", "contract-applies", "pure", "variant-cand", "preserved":
+	case "frame", "effect", "lock", "guard", "post", "typeinv", "typeinv-new", "cand", "monotone", "writers", "at", "sink", "callers", "flows", "opaque", "contract-applies", "pure", "variant-cand", "preserved", "propagates":
 	default:
 		e.assume(goal)
 	}
